@@ -444,4 +444,5 @@ var c13Templates = []c13Template{
 	{"B", c13TemplateB},
 	{"C", c13TemplateC},
 	{"N", c13TemplateN},
+	{"K", c13TemplateK},
 }
